@@ -313,6 +313,7 @@ theorem Fr_eq : ∀ (t : MBT K ι) (Ap : ι → K), WF t →
           = (Ap + n.H *ᵥ (udotA ab fb fm (mk n cs) Ap)) + ab n := rfl
       simp only [udotA, eps, G, bd] at hacc
       rw [hacc, aux_split _ _ _ hPe, ← hz]
+      rfl
 theorem Frkids_eq : ∀ (cs : List (MBT K ι)) (A : ι → K), (∀ c ∈ cs, WF c) →
     FrPkids ab fb (udotA ab fb fm) cs A = Pkids cs *ᵥ A + zkids ab fb fm cs
   | [], A, _ => by simp [FrPkids, Pkids, zkids]
@@ -409,6 +410,69 @@ theorem inverse_kids : ∀ (cs : List (MBT K ι)) (A : ι → K), (∀ c ∈ cs,
       · simp only [AllNk]
         exact ⟨hA1, hA2⟩
 end
+
+
+/-! ## applied body forces enter as `Jᵀ F` -/
+
+section bodyforce
+variable (ab fb : Bd K ι → ι → K) (fm : MobF K ι) (X : Bd K ι → ι → K)
+
+mutual
+/-- `multiplyBySystemJacobianTranspose`: `Z = X + Σ φ_c Z_c` -/
+def Zx : MBT K ι → ι → K
+  | mk n cs => X n + Zxkids cs
+def Zxkids : List (MBT K ι) → ι → K
+  | [] => 0
+  | c :: cs => (bd c).phi *ᵥ Zx c + Zxkids cs
+end
+
+/-- the block of `Jᵀ X` at the inboard joint of `t`: `Hᵀ Z` -/
+def JT : MobF K ι := fun t => (bd t).Hᵀ *ᵥ Zx X t
+
+mutual
+theorem z_bodyforce : ∀ (t : MBT K ι),
+    z ab (fun n => fb n - X n) fm t = z ab fb (fun t => fm t + JT X t) t - Zx X t
+  | mk n cs => by
+      simp only [z, Zx, zkids_bodyforce cs]
+      abel
+theorem zkids_bodyforce : ∀ (cs : List (MBT K ι)),
+    zkids ab (fun n => fb n - X n) fm cs = zkids ab fb (fun t => fm t + JT X t) cs - Zxkids X cs
+  | [] => by simp [zkids, Zxkids]
+  | c :: cs => by
+      simp only [zkids, Zxkids, z_bodyforce c, zkids_bodyforce cs, JT, mulVec_sub, mulVec_add]
+      abel
+end
+
+/-- **applied body forces enter exactly as `Jᵀ F`**: forward dynamics with body forces `X` (they enter the bias force
+as `−X`) equals forward dynamics without them and mobility forces `f + Jᵀ X` -/
+theorem udotA_bodyforce (t : MBT K ι) (Ap : ι → K) :
+    udotA ab (fun n => fb n - X n) fm t Ap = udotA ab fb (fun t => fm t + JT X t) t Ap := by
+  have e : eps ab (fun n => fb n - X n) fm t = eps ab fb (fun t => fm t + JT X t) t := by
+    simp only [eps, z_bodyforce, JT, mulVec_sub]
+    abel
+  simp only [udotA, e]
+
+mutual
+/-- the same for inverse dynamics: the force through the joint differs by `Z`, so the residual `Hᵀ F − f` agrees -/
+theorem FrP_bodyforce (pol : Pol K ι) : ∀ (t : MBT K ι) (Ap : ι → K),
+    FrP ab (fun n => fb n - X n) pol t Ap = FrP ab fb pol t Ap - Zx X t
+  | mk n cs, Ap => by
+      simp only [FrP, Zx, FrPkids_bodyforce pol cs]
+      abel
+theorem FrPkids_bodyforce (pol : Pol K ι) : ∀ (cs : List (MBT K ι)) (A : ι → K),
+    FrPkids ab (fun n => fb n - X n) pol cs A = FrPkids ab fb pol cs A - Zxkids X cs
+  | [], _ => by simp [FrPkids, Zxkids]
+  | c :: cs, A => by
+      simp only [FrPkids, Zxkids, FrP_bodyforce pol c, FrPkids_bodyforce pol cs A, mulVec_sub]
+      abel
+end
+
+theorem resid_bodyforce (pol : Pol K ι) (t : MBT K ι) (Ap : ι → K) :
+    resid ab (fun n => fb n - X n) fm pol t Ap = resid ab fb (fun t => fm t + JT X t) pol t Ap := by
+  simp only [resid, FrP_bodyforce, JT, mulVec_sub]
+  abel
+
+end bodyforce
 
 end MBT
 end TreeDynAbs
